@@ -551,9 +551,23 @@ def run(ctx):
 
 
 def replay(case, part):
+    """Re-runs the recorded schedule.  Deviations are indexed by decision number, so on a tree whose traced lines changed the
+    recorded schedule may not exist any more; then the scenario is re-explored up to the recorded number of deviations."""
+    import sys
     scen = case["scenario"]
     devs = [list(d) for d in case["devs"]]
     sched.install_quiet_abort()
-    res = sched.run_twice(lambda d: run_schedule(scen, d, trace=True, reduce=False), devs)
+    try:
+        res = sched.run_twice(lambda d: run_schedule(scen, d, trace=True, reduce=False), devs)
+    except sched.Nondeterminism:
+        raise
+    except sched.ScheduleError as exc:
+        print(f"note: the recorded schedule does not exist on this tree ({exc}); re-exploring {scen} with <= "
+              f"{case.get('deviations', 2)} deviations", file=sys.stderr)
+        obs = {"all": set(), "low": {}}
+        sched.explore(lambda d: run_schedule(scen, d), [([], 0)], int(case.get("deviations", 2)),
+                      lambda r, d: _record(scen, MAIN, r, d, part, obs, 0), sched.Stats(), det_first=2)
+        part["violations"].sort(key=lambda v: (v["case"]["deviations"], len(v["case"]["devs"])))
+        return
     for fp, what, oracle in judge(scen, res, devs, part):
         add_violation(part, fp, f"{scen}: {what}", case, _detail(res, res, oracle))
